@@ -135,8 +135,9 @@ def run(ctx):
         "numpy brute-force oracle in this file (independent re-implementation of the documented formulas)",
     ]
     ctx.not_proved = [
-        "that the wrapper's _separate_dirs_test (cones at least 2*tol apart) implies the premise of C08_break_harmless (no pair passes two "
-        "direction tests) is probed only (false for coincident points: the known finding)",
+        "that the wrapper's _separate_dirs_test (cones at least 2*tol apart) implies the premise of C08_break_harmless (no pair of "
+        "distinct points passes two direction tests) is proved in 2-D (C08_separated_2d) and probed only in 3-D; it is false for "
+        "coincident points (the known finding)",
         "the meaning of the direction test (angle via acos of |cos|, band distance) over the reals is not restated as a theorem; it is the translated dir_test",
         "float rounding: the generic theorems hold for doubles as executed; the R-level meaning (order freedom) ignores rounding",
         "vario_estimate preprocessing (masking, no_data, sampling, direction normalisation) is property C09",
